@@ -92,6 +92,7 @@ func DriveWith[C any](t *testing.T, p Prop[C], cfg Config, st *Stats) {
 		return p.Run(c, st)
 	}
 	if cfg.Replay != "" {
+		st.ReplayMode = true
 		raw, err := LoadReplay(cfg.Replay)
 		if err != nil {
 			t.Fatalf("cannot load replay: %v", err)
@@ -139,6 +140,6 @@ func DriveWith[C any](t *testing.T, p Prop[C], cfg Config, st *Stats) {
 		}
 	}
 	if failed && st.Failed() {
-		Logf("FAIL %s: %s", p.ID, st.Failures[0].Message)
+		Logf("FAIL %s: %s", p.ID, st.LastFailure())
 	}
 }
